@@ -140,18 +140,25 @@ func runC17(c *core.Ctx) core.Meta {
 				continue
 			}
 			args := core.CallOf(n.Instr).Args
-			dv := prov.Of(args[len(args)-1])
-			if !regexp.MustCompile(`\.Data$`).MatchString(dv) {
+			// the request's buffer itself or a contiguous slice of it: both
+			// write bytes without consulting their mask entries
+			dataArg := args[len(args)-1]
+			if sl, ok := dataArg.(*ssa.Slice); ok {
+				dataArg = sl.X
+			}
+			dv := prov.Of(dataArg)
+			dm := regexp.MustCompile(`^(.*)\.Data$`).FindStringSubmatch(dv)
+			if dm == nil {
 				continue
 			}
 			st2.Instances++
-			base := strings.TrimSuffix(dv, ".Data")
+			base := dm[1]
 			cut := NilCut(func(v ssa.Value) bool { return prov.Of(v) == base+".DirtyMask" }, true)
 			okG := g.Guarded(n, cut)
 			st2.Ob(okG)
 			st2.Sample("%s: Storage.Write(_, %s) guarded by DirtyMask==nil: %v", core.FuncName(fn), dv, okG)
 			if !okG {
-				c.ReportAt("R17.2", fn, n.Instr.Pos(), "unmasked-write:guard", "the whole request buffer is written on a path that did not find DirtyMask nil: disabled bytes are overwritten")
+				c.ReportAt("R17.2", fn, n.Instr.Pos(), "unmasked-write:guard", "the request buffer (or a contiguous slice of it) is written to storage on a path that did not find DirtyMask nil: disabled bytes are overwritten")
 			}
 		}
 	}
